@@ -254,3 +254,130 @@ Definition toy_pending (lead : option N) : N := match lead with Some _ => 1 | No
 Definition toy_run (which : N) (input : list N) : outcome :=
   decode_loop_impl toy_step (decode_fuel input) None
     (match which with 0 => Strict | 1 => Ignore | _ => Replace end) input.
+
+(* ================================================================================================ *)
+(* The decode loop with the CONTENT of the output string                                            *)
+(* ================================================================================================ *)
+(* Same loop, but the output String is its text (a list of Unicode scalar values) and its capacity; its
+   length in bytes is the UTF-8 length of the text.  A decoder step returns the characters it appended
+   instead of their number.  This is the loop the result theorems of C18 are about; [erase_step] maps a
+   decoder of this kind to the (read, written) view of the loop above. *)
+Definition utf8_len (c : N) : N :=
+  if c <? 128 then 1 else if c <? 2048 then 2 else if c <? 65536 then 3 else 4.
+
+Fixpoint text_len (t : list N) : N :=
+  match t with
+  | [] => 0
+  | c :: r => utf8_len c + text_len r
+  end.
+
+Inductive xresult :=
+| XInputEmpty
+| XOutputFull (read : N)
+| XMalformed (malformed_len bytes_after read : N).
+
+Definition erase_result (r : xresult) (w : N) : step_result :=
+  match r with
+  | XInputEmpty => InputEmpty w
+  | XOutputFull rd => OutputFull rd w
+  | XMalformed ml af rd => Malformed ml af rd w
+  end.
+
+Definition erase_step {dstate : Type} (xstep : dstate -> list N -> N -> dstate * xresult * list N)
+  : dstate -> list N -> N -> dstate * step_result :=
+  fun d rem spare => let '(d', r, cs) := xstep d rem spare in (d', erase_result r (text_len cs)).
+
+(* A YAMLDecodingTrapFn sees the whole String (content and capacity) and may change both. *)
+Inductive xcb_result :=
+| XCbContinue (text : list N) (cap : N)
+| XCbBreak (empty_message : bool).
+
+Definition xcallback := N -> N -> list N -> list N * N -> xcb_result.
+
+Inductive xtrap :=
+| XIgnore
+| XStrict
+| XReplace
+| XCall (cb : xcallback).
+
+Inductive xoutcome :=
+| XDone (text : list N) (cap : N)
+| XDecodeError (byte_idx malformed_len : N)
+| XCallbackError
+| XPanicked (p : panic)
+| XOutOfFuel.
+
+Definition REPLACEMENT : N := 65533.
+
+Section XLoop.
+  Variable dstate : Type.
+  Variable xstep : dstate -> list N -> N -> dstate * xresult * list N.
+  Variables div min : N.
+
+  Record xconfig := XConfig { x_total : N; x_dec : dstate; x_text : list N; x_cap : N }.
+
+  Definition xloop_step (t : xtrap) (input : list N) (c : xconfig) : xconfig + xoutcome :=
+    let n := nlen input in
+    if n <? x_total c then inr (XPanicked PSliceFrom)
+    else
+      let rem := skipn (N.to_nat (x_total c)) input in
+      let len := text_len (x_text c) in
+      let spare := x_cap c - len in
+      let '(d', r, cs) := xstep (x_dec c) rem spare in
+      let w := text_len cs in
+      if spare <? w then inr (XPanicked PWrittenBeyondCap)
+      else
+        let text' := x_text c ++ cs in
+        let len' := len + w in
+        match r with
+        | XInputEmpty => inr (XDone text' (x_cap c))
+        | XOutputFull rd =>
+            inl (XConfig (x_total c + rd) d' text' (reserve len' (x_cap c) (growth_step div min n)))
+        | XMalformed ml af rd =>
+            let total' := x_total c + rd in
+            match t with
+            | XIgnore => inl (XConfig total' d' text' (x_cap c))
+            | XReplace => inl (XConfig total' d' (text' ++ [REPLACEMENT]) (reserve len' (x_cap c) 3))
+            | XStrict =>
+                match malformed_index false n total' ml af with
+                | inl p => inr (XPanicked p)
+                | inr idx => inr (XDecodeError idx ml)
+                end
+            | XCall cb =>
+                match malformed_index true n total' ml af with
+                | inl p => inr (XPanicked p)
+                | inr idx =>
+                    match cb ml af (skipn (N.to_nat idx) input) (text', x_cap c) with
+                    | XCbContinue t2 c2 => inl (XConfig total' d' t2 c2)
+                    | XCbBreak true => inr (XDecodeError idx ml)
+                    | XCbBreak false => inr XCallbackError
+                    end
+                end
+            end
+        end.
+
+  Fixpoint xloop_go (fuel : nat) (t : xtrap) (input : list N) (c : xconfig) : xoutcome :=
+    match fuel with
+    | O => XOutOfFuel
+    | S f =>
+        match xloop_step t input c with
+        | inr o => o
+        | inl c' => xloop_go f t input c'
+        end
+    end.
+
+  Definition xinitial_config (d0 : dstate) (input : list N) : xconfig :=
+    XConfig 0 d0 [] (reserve 0 0 (nlen input)).
+
+  Definition xdecode_loop (fuel : nat) (d0 : dstate) (t : xtrap) (input : list N) : xoutcome :=
+    xloop_go fuel t input (xinitial_config d0 input).
+End XLoop.
+
+Arguments XConfig {dstate}.
+Arguments x_total {dstate}.
+Arguments x_dec {dstate}.
+Arguments x_text {dstate}.
+Arguments x_cap {dstate}.
+
+Definition xdecode_loop_impl {dstate} (xstep : dstate -> list N -> N -> dstate * xresult * list N) :=
+  xdecode_loop dstate xstep RESERVE_DIV RESERVE_MIN.
